@@ -387,7 +387,7 @@ class Check(PropertyCheck):
                     "harness/common/world.py as a stand-in for proxy/server.py's command interpreter",
                     "Model/C13.lean (ClientHello parsing) and its theorem prefix_stable"]
     parallel = False
-    case_timeout = 20
+    case_timeout = 180        # per-case SIGALRM; generous: on a loaded machine the first taddons context of a worker can take tens of seconds
 
     def translate(self):
         """(T) constants of next_layer.py / tls.py the model uses, regenerated from the live code on every run"""
